@@ -129,6 +129,22 @@ func (w *walker) expr(e ast.Node, h held) {
 		case *ast.FuncLit:
 			w.block(x.Body.List, held{})
 			return false
+		case *ast.CallExpr:
+			// a call of a "caller holds the mutex" helper on the receiver is an obligation at the call site
+			if sel, ok := x.Fun.(*ast.SelectorExpr); ok {
+				if id, ok := sel.X.(*ast.Ident); ok && id.Name == w.recv {
+					for _, mu := range w.tc.CallerHolds[sel.Sel.Name] {
+						var hs []string
+						for k := range h {
+							hs = append(hs, k)
+						}
+						sort.Strings(hs)
+						pos := w.fset.Position(x.Pos())
+						*w.out = append(*w.out, access{Pkg: w.tc.Pkg, Type: w.tc.Type, Field: "call " + sel.Sel.Name + "()", Func: w.fn, File: w.file,
+							Line: pos.Line, Guard: mu, Held: hs, OK: h[mu]})
+					}
+				}
+			}
 		case *ast.SelectorExpr:
 			if id, ok := x.X.(*ast.Ident); ok && id.Name == w.recv {
 				if _, guarded := w.tc.Guarded[x.Sel.Name]; guarded {
